@@ -103,3 +103,30 @@ Proof.
   split; [left; reflexivity|]. split; [left; reflexivity|]. split; [vm_compute; reflexivity|].
   unfold ident_plain, i_b. cbn. intros [H|[]]. discriminate.
 Qed.
+
+(* ---- signing cycles, and "accepted iff no static error" --------------------------------------------------------------------- *)
+From NDN Require Import Proofs.LvsCompileIff Proofs.LvsSignGraph.
+
+Lemma ex_sign_plain : sign_plain ex_schema.
+Proof.
+  intros d k Hd Hk. cbn in Hd. destruct Hd as [<-|[<-|[<-|[]]]]; cbn in Hk; try contradiction.
+  destruct Hk as [<-|[]]. unfold ident_plain, i_key. cbn. intros [H|[H|[H|[]]]]; discriminate.
+Qed.
+
+(* #a: /"a" <= #b     #b: /"b" <= #a *)
+Definition ex_signcycle : lvsfile :=
+  [ {| r_id := i_a; r_name := [CLit (gc 97)]; r_cons := []; r_sign := [i_b] |};
+    {| r_id := i_b; r_name := [CLit (gc 98)]; r_cons := []; r_sign := [i_a] |} ].
+Definition ex_signcycle_model : lvsmodel :=
+  match compile ex_signcycle with Ok m => m | Err _ => {| m_version := None; m_start := None; m_npc := None; m_nodes := []; m_symbols := [] |} end.
+Lemma ex_signcycle_facts : static_ok ex_signcycle = true /\ schema_wf ex_signcycle = true /\ compile ex_signcycle = Ok ex_signcycle_model /\
+  sanity_check (sanity_fuel ex_signcycle_model) ex_signcycle_model = Err ESemantic.
+Proof. repeat split; vm_compute; reflexivity. Qed.
+
+From NDN Require Import Proofs.LvsSignCycle.
+Lemma ex_signcycle_walk : sign_walk ex_signcycle i_a i_a [i_b].
+Proof.
+  cbn. split.
+  - eexists. split; [left; reflexivity|]. split; [reflexivity | left; reflexivity].
+  - eexists. split; [right; left; reflexivity|]. split; [reflexivity | left; reflexivity].
+Qed.
